@@ -104,5 +104,28 @@ class AsyncAnswers(srv.ASrvHarness):
         ]
 
 
-HARNESSES = {'answers': Answers, 'ids': Ids, 'async_answers': AsyncAnswers}
-PLAN = {'quick': ['answers', 'ids', 'async_answers'], 'thorough': ['answers', 'ids', 'async_answers']}
+from . import c11  # noqa: E402
+
+
+class ProcAnswers(c11.PHarness):
+    """servlet trees with worker PROCESSES behind the simulated process boundary; two workers per process servlet, gated by the
+    environment so that requests overtake each other inside the server"""
+    name = 'proc_answers'
+
+    def configs(self, tier):
+        quick = tier == 'quick'
+        d = 0 if quick else 1
+        cap = 60000 if quick else 600000
+        three = [[[0, BIG, False]], [[1, BIG, False]], [[2, BIG, False]]]
+        return [
+            dict(ptopo='P', topo='single', nworkers=2, capacity=3, gated=['A'], env_wait=True, calls=three, oracles=O, bound=d, cap=cap),
+            dict(ptopo='PT', topo='seq', nworkers=2, capacity=3, gated=['A'], env_wait=True, calls=three, oracles=O, bound=d, cap=cap),
+            dict(ptopo='PP', topo='seq', nworkers=2, capacity=3, gated=['B'], env_wait=True, fail={'A': [1]}, calls=three, oracles=O, bound=d, cap=cap),
+            dict(ptopo='ensTP', topo='ens', capacity=3, gated=['B'], fail_fast=True, fail={'A': [1]}, calls=three, oracles=O, bound=d, cap=cap),
+            dict(ptopo='P', topo='single', nworkers=2, capacity=2, gated=['A'], calls=[[[10, BIG, False]]], stream=dict(xs=[0, 1, 2]),
+                 oracles=O, bound=d, cap=cap),
+        ]
+
+
+HARNESSES = {'answers': Answers, 'ids': Ids, 'async_answers': AsyncAnswers, 'proc_answers': ProcAnswers}
+PLAN = {'quick': ['answers', 'ids', 'async_answers', 'proc_answers'], 'thorough': ['answers', 'ids', 'async_answers', 'proc_answers']}
